@@ -33,7 +33,9 @@ def _value_param(ex, env):
 
 
 def _mk_self_init(ex, env):
-    return Obj('SimpleAsn1Type', {'defaultValue': Int('defaultValue'), 'subtypeSpec': FnV(_subtype_spec, 'self.subtypeSpec'),
+    # the class-level default: noValue unless a subclass declares one
+    default = NOVALUE if ex.choose(Bool('default.isNoValue'), 'no-class-default') else Int('defaultValue')
+    return Obj('SimpleAsn1Type', {'defaultValue': default, 'subtypeSpec': FnV(_subtype_spec, 'self.subtypeSpec'),
                                   '__class__': Obj('type', {'__name__': 'Integer'}, name='cls')},
                {'prettyIn': lambda ex2, self, v: pretty_in(toint(v))}, name='self')
 
@@ -42,11 +44,16 @@ SIMPLE_INIT = Contract(
     id='type.base::SimpleAsn1Type.__init__', file=F, qual='SimpleAsn1Type.__init__', properties=['C14', 'C10', 'C11'],
     params=dict(self=PDerived(_mk_self_init), value=PDerived(_value_param), kwargs=POptions()),
     globals={'Asn1Type': {'__init__': FnV(lambda ex, self, **kw: None, 'Asn1Type.__init__'), '__name__': 'Asn1Type'},
-             'admits': lambda ex, v: admits(toint(v)), 'PI': lambda ex, v: pretty_in(Int('value') if v is NOVALUE else toint(v))},
+             'admits': lambda ex, v: admits(toint(v)), 'PI': lambda ex, v: pretty_in(Int('value') if v is NOVALUE else toint(v)),
+             'noDefault': Bool('default.isNoValue'), 'PD': pretty_in(Int('defaultValue'))},
     ensures=[('stores-normalised-value', 'old(value) is not noValue ==> self._value == PI(old(value))'),
              ('stored-value-admitted', 'old(value) is not noValue ==> admits(self._value)'),
-             ('schema-object-gets-default', 'old(value) is noValue ==> self._value == self.defaultValue')],
-    raises={'ValueConstraintError': 'value is not noValue and not admits(PI(value))'},
+             ('schema-object-without-a-class-default', '(old(value) is noValue and noDefault) ==> self._value is noValue'),
+             # C14: a class-level default is a value like any other -- normalised, and admitted by the type's constraints
+             ('class-default-normalised-and-admitted', '(old(value) is noValue and not noDefault) ==> '
+                                                       '(self._value == PD and admits(self._value))')],
+    raises={'ValueConstraintError': '(value is not noValue and not admits(PI(value))) or '
+                                    '(value is noValue and not noDefault and not admits(PD))'},
     note='no value object exists whose value its own subtypeSpec rejects: the constraint is evaluated on the '
          'normalised value before it is stored, and a violation leaves no object behind')
 
